@@ -124,6 +124,41 @@ Denote(sig) ==
                    ELSE [kind |-> "none", r |-> <<>>, s |-> <<>>]
 Denoting(d) == d.kind \in {"raw", "strict", "lax"}
 
+\* ------------------------------------------------------------------ public keys (SEC 1, 2.3.3/2.3.4 octet strings)
+\* SEC 2, secp256k1: p = FFFFFFFF FFFFFFFF FFFFFFFF FFFFFFFF FFFFFFFF FFFFFFFF FFFFFFFE FFFFFC2F
+Prime256 == Rep(255, 27) \o <<254, 255, 255, 252, 47>>
+\* A public key is handed over as an octet string.  It denotes a point exactly when it is
+\*     02|03 || X  (1 + w octets)   with X < p and X^3 + 7 a square mod p      (compressed), or
+\*     04 || X || Y  (1 + 2w octets) with X < p, Y < p and Y^2 = X^3 + 7 mod p  (uncompressed);
+\* everything else - other lengths, other prefix octets (00 "infinity", 05, hybrid 06/07), a prefix that does not go with
+\* the length, a coordinate that is not a field element (c + p) - denotes no key, and no triple with it may be accepted.
+\* The infinite point has no such encoding, so it cannot be a public key.  The curve equation on the integers AS WRITTEN
+\* (reduced mod p) is the oracle fact curveEq; length, prefix and range are decided here.
+PubForm(pub, w) == IF Len(pub) = 1 + w /\ pub[1] \in {2, 3} THEN "compressed"
+                   ELSE IF Len(pub) = 1 + 2 * w /\ pub[1] = 4 THEN "uncompressed" ELSE "malformed"
+PubKeyOk(pub, p, w, curveEq) ==
+    /\ PubForm(pub, w) # "malformed"
+    /\ CmpU(SubSeq(pub, 2, 1 + w), p) < 0
+    /\ (PubForm(pub, w) = "uncompressed") => CmpU(SubSeq(pub, 2 + w, 1 + 2 * w), p) < 0
+    /\ curveEq
+
+\* Named deviation "public-key-prefix-length-mismatch-accepted": the octet string is classified by its length alone - 65
+\* octets with prefix 02/03 are read as 04 || X || Y, 33 octets with prefix 04 as a compressed X - instead of being refused.
+\* It covers exactly those strings, and an acceptance only if the key so read is valid and the triple verifies under it
+\* (oracle fact eqAlt).
+PrefixLengthMismatch(pub, w) == \/ (Len(pub) = 1 + 2 * w /\ pub[1] \in {2, 3})
+                                \/ (Len(pub) = 1 + w /\ pub[1] = 4)
+\* Named deviation "public-key-hex-string-refused": a public key handed over as hexadecimal text (a documented form) is
+\* refused with an internal error whatever it denotes; covers exactly a rejected valid triple whose key came as hex text.
+KeyForms == {"bytes", "hex", "Key", "HDKey", "point"}
+\* v: verdict of VerifyVerdictT;  re-attribution of the two public-key deviations
+PubKeyDeviations(v, pub, w, keyform, obs, eqAlt) ==
+    IF v.v = "verifier-rejects-valid-triple" /\ keyform = "hex"
+    THEN [v EXCEPT !.dev = "public-key-hex-string-refused"]
+    ELSE IF v.v = "verifier-accepts-invalid-triple" /\ v.dev = "" /\ obs = "accept" /\ PrefixLengthMismatch(pub, w) /\ eqAlt
+    THEN [v EXCEPT !.dev = "public-key-prefix-length-mismatch-accepted"]
+    ELSE v
+
 \* ------------------------------------------------------------------ verifier relation
 \* onCurve, eq: oracle facts (Q is a point of the curve; x(z/s*G + r/s*Q) mod n = r), only meaningful when in range
 EcdsaOk(r, s, n, onCurve, eq) == InRange(r, n) /\ InRange(s, n) /\ onCurve /\ eq
